@@ -132,17 +132,39 @@ class Checker:
         self.add("numbering", label, not bad, "; ".join(sorted(set(bad)))[:600])
 
     def number_is_counter_after_increment(self, counter, ctor_sites, num_kw, label="number-is-the-counter-after-its-increment"):
+        """The number stored is (images appended so far) + 1: either the counter right after its increment, or `counter + 1` evaluated
+        before the increment of this iteration (the number may travel through plain local names / helper parameters)."""
         bad = []
         for c in ctor_sites:
             v = kwv(c, num_kw)
             if v is None:
                 continue
-            if not (isinstance(v, ast.Name) and v.id == counter):
-                bad.append(f"line {LN(c)}: {num_kw}={ast.unparse(v)}")
+            at = c
+            for _ in range(4):            # follow `n = <expr>` chains
+                if isinstance(v, ast.Name) and v.id != counter:
+                    b = reaching(self.fn, self.pm, v.id, at)
+                    if b is None or b.kind != "assign":
+                        break
+                    v, at = b.value, b.node
+                else:
+                    break
+            loops = loops_around(self.pm, c)
+            in_loop = set(id(x) for x in ast.walk(loops[0])) if loops else set()
+            if isinstance(v, ast.Name) and v.id == counter:
+                b = reaching(self.fn, self.pm, counter, at)
+                if b is None or not is_inc(b.node, counter):
+                    bad.append(f"line {LN(c)}: the value of {counter} used is not the one right after its increment")
                 continue
-            b = reaching(self.fn, self.pm, counter, c)
-            if b is None or not is_inc(b.node, counter):
-                bad.append(f"line {LN(c)}: the value of {counter} used is not the one right after `{counter} += 1`")
+            plus1 = isinstance(v, ast.BinOp) and isinstance(v.op, ast.Add) and \
+                ((isinstance(v.left, ast.Name) and v.left.id == counter and isinstance(v.right, ast.Constant) and v.right.value == 1) or
+                 (isinstance(v.right, ast.Name) and v.right.id == counter and isinstance(v.left, ast.Constant) and v.left.value == 1))
+            if plus1:
+                b = reaching(self.fn, self.pm, counter, at)
+                if b is not None and not (is_inc(b.node, counter) and id(b.node) in in_loop):
+                    continue              # counter not yet incremented in this iteration: counter + 1 is the next number
+                bad.append(f"line {LN(c)}: `{ast.unparse(v)}` is evaluated after the increment of this iteration")
+                continue
+            bad.append(f"line {LN(c)}: {num_kw}={ast.unparse(v)[:60]}")
         self.add("numbering", label, not bad, "; ".join(bad))
 
     def starts_at_zero_once(self, counter, fn=None, label="counter-starts-at-zero-once-per-document", unit_loop_ok=None):
